@@ -1,0 +1,30 @@
+//! Verification hooks (compiled only with the `verif-hooks` feature).
+//!
+//! A labelled "tick" is emitted at every storage step (each `with_connection` call and each
+//! statement boundary inside the snapshot / restore / relay-replacement transactions). A test
+//! harness can install a per-thread handler that counts ticks, panics or aborts at a chosen
+//! one (simulated process death), inspects the database files, or yields to other threads.
+//! With no handler installed a tick does nothing.
+
+use std::cell::RefCell;
+use std::rc::Rc;
+
+/// Handler type: receives the static label of the tick.
+pub type TickHandler = Rc<dyn Fn(&'static str)>;
+
+thread_local! {
+    static HANDLER: RefCell<Option<TickHandler>> = const { RefCell::new(None) };
+}
+
+/// Installs (or with `None` removes) the tick handler of the calling thread.
+pub fn set_tick_handler(handler: Option<TickHandler>) {
+    HANDLER.with(|h| *h.borrow_mut() = handler);
+}
+
+/// Emits a tick with the given label.
+pub fn tick(label: &'static str) {
+    let handler = HANDLER.with(|h| h.borrow().clone());
+    if let Some(handler) = handler {
+        handler(label);
+    }
+}
